@@ -273,7 +273,9 @@ def run_cache(cfg, res):
       viol = []
       res.count('quiescence_evaluations')
       states = [p.transport.producerState for p in h.protos]
-      if h.final_size < low and (world.state.metricReceiversPaused or 'paused' in states):
+      # "once the cache has drained below 95%": what counts is the datapoints really held, not carbon's counter of them
+      held = min(h.final_size, getattr(h, 'final_held', h.final_size))
+      if held < low and (world.state.metricReceiversPaused or 'paused' in states):
         late_only = (not world.state.metricReceiversPaused and getattr(h, 'closed', 0) == 0 and 'paused' not in states[:2])
         res.count('disconnects_during_resume_dispatch', getattr(h, 'disconnect_during_resume_dispatch', 0))
         if (getattr(h, 'disconnect_during_resume_dispatch', 0) and not world.state.metricReceiversPaused
@@ -281,8 +283,8 @@ def run_cache(cfg, res):
           kind = 'disconnect-during-resume-dispatch'
         else:
           kind = 'receiver-connected-during-resume' if late_only else 'flow-control-state'
-        viol.append(('stuck-paused/' + kind, 'writer exited, cache holds %d datapoints (< low watermark %s) but receivers are paused: '
-                     'metricReceiversPaused=%s cacheTooFull=%s transports=%r' % (h.final_size, low, world.state.metricReceiversPaused,
+        viol.append(('stuck-paused/' + kind, 'writer exited, cache holds %d datapoints (< low watermark %s; its size counter says %d) but receivers are paused: '
+                     'metricReceiversPaused=%s cacheTooFull=%s transports=%r' % (held, low, h.final_size, world.state.metricReceiversPaused,
                                                                                  world.state.cacheTooFull, states)))
       for p in h.protos:
         if (getattr(p, 'verif_connected_while_paused', False) and p.verif_state_after_connect != 'paused'
